@@ -170,10 +170,9 @@ impl Cursor<'_> {
             '"' => self.str()?,
             // Unknown starting characters
             _ => {
-                let start = self.abs_pos() - 1;
                 self.take_while(|c| !is_whitespace(c));
                 return Err(error::lex_unknown(
-                    (start..self.abs_pos()).into(),
+                    (start_pos..self.abs_pos()).into(),
                     self.src(),
                 ));
             }
